@@ -298,6 +298,19 @@ def gen_class(rng, depth, *, naming=True, variant_tag=None, allow=None, simple=F
                     f.exclude = True
         fields.append(f)
 
+    # a wire name that is the PYTHON name of another field which is itself renamed away (`legacy_id = field(rename='id')` beside
+    # `id = field(rename='uuid')`), in either declaration order: the configured name wins (D44)
+    if naming and not simple and not any(k in opts for k in ('rename', 'in_rename', 'out_rename')) and r() < 0.08:
+        plain = [f for f in fields if f.init and not (f.aliases or f.in_names or f.rename or f.out_name)]
+        cand = [a for a in ALIAS_NAMES if a not in used_names]
+        if len(plain) >= 2 and cand:
+            fa, fb = rng.sample(plain, 2)
+            fa.rename = rng.choice(cand)
+            used_names.add(fa.rename)
+            fb.rename = fa.name
+            if r() < 0.3:
+                fa.rename = fb.name          # a full swap
+
     # legal order: required positional, defaulted positional, keyword-only (defaults required if tuple input)
     for f in fields:
         if (f.kw_only or opts.get('kw_only')) and tuple_in and not f.has_default():
